@@ -271,6 +271,21 @@ func genPlan(seed uint64, n int, big bool) []op {
 	keys := seqKeys()
 	leases := map[string]uint64{}
 	var plan []op
+	if big && n == 2 {
+		// directed hand-off case: a node imports a large range and later removes all of it in ONE call
+		imp := op{kind: "import"}
+		rm := op{kind: "remove"}
+		for _, j := range rngPerm(rng, 400)[:260+rng.Intn(140)] {
+			kk := []byte(fmt.Sprintf("b%03d", j))
+			it := genItem(rng, kk, false)
+			if it.lease > 1000 {
+				it.lease = 4_000_000_000_000_000_000 + uint64(rng.Intn(1000))
+			}
+			imp.items = append(imp.items, it)
+			rm.keys = append(rm.keys, kk)
+		}
+		return []op{imp, rm}
+	}
 	for i := 0; i < n; i++ {
 		k := hlib.Pick(rng, keys)
 		switch x := rng.Intn(100); {
@@ -305,10 +320,20 @@ func genPlan(seed uint64, n int, big bool) []op {
 			plan = append(plan, o)
 		case x < 93:
 			o := op{kind: "remove"}
-			for m := 1 + rng.Intn(3); m > 0; m-- {
-				kk := hlib.Pick(rng, keys)
-				o.keys = append(o.keys, kk)
-				delete(leases, string(kk))
+			if big && rng.Chance(60) {
+				// what a leaving node does: one RemoveKeys call for everything it handed off
+				// (more keys than sqlite's 200-key delete batch)
+				for _, j := range rngPerm(rng, 400)[:220+rng.Intn(180)] {
+					kk := []byte(fmt.Sprintf("b%03d", j))
+					o.keys = append(o.keys, kk)
+					delete(leases, string(kk))
+				}
+			} else {
+				for m := 1 + rng.Intn(3); m > 0; m-- {
+					kk := hlib.Pick(rng, keys)
+					o.keys = append(o.keys, kk)
+					delete(leases, string(kk))
+				}
 			}
 			plan = append(plan, o)
 		default:
@@ -320,6 +345,37 @@ func genPlan(seed uint64, n int, big bool) []op {
 		}
 	}
 	return plan
+}
+
+// bigCallDuration: measured once per run — how long one RemoveKeys of ~300 keys takes here
+var bigCallDuration time.Duration
+
+func calibrate(root string) {
+	dir := filepath.Join(root, "calib")
+	os.MkdirAll(dir, 0o755)
+	defer os.RemoveAll(dir)
+	kv, err := openStore(dir, chord.Hash)
+	if err != nil {
+		return
+	}
+	defer kv.Close()
+	plan := genPlan(12345, 2, true)
+	plan[0].apply(kv)
+	t0 := time.Now()
+	plan[1].apply(kv)
+	bigCallDuration = time.Since(t0)
+}
+
+func rngPerm(rng *hlib.Rng, n int) []int {
+	p := make([]int, n)
+	for i := range p {
+		p[i] = i
+	}
+	for i := n - 1; i > 0; i-- {
+		j := rng.Intn(i + 1)
+		p[i], p[j] = p[j], p[i]
+	}
+	return p
 }
 
 // ---- child mode
@@ -545,6 +601,27 @@ func crashCase(root string, id int, seed uint64, n int, big bool) (out caseOut) 
 	if rng.Chance(30) {
 		delay = 0
 	}
+	if big && n == 2 && bigCallDuration > 0 {
+		// directed case: kill somewhere inside the big Import (K=0) or the big RemoveKeys (K=1); the kill
+		// delay is spread over the measured duration of such a call on this machine
+		K = 1
+		if rng.Chance(25) {
+			K = 0
+		}
+		delay = time.Duration(float64(bigCallDuration) * (0.05 + 1.1*float64(rng.Intn(1000))/1000.0))
+	} else if big && rng.Chance(65) {
+		// aim at a multi-batch call (big Import / big RemoveKeys) and kill somewhere inside it
+		var bigIdx []int
+		for i, o := range plan {
+			if len(o.keys) > 200 || len(o.items) > 100 {
+				bigIdx = append(bigIdx, i)
+			}
+		}
+		if len(bigIdx) > 0 {
+			K = hlib.Pick(rng, bigIdx)
+			delay = time.Duration(200+rng.Intn(6000)) * time.Microsecond
+		}
+	}
 	cmd := exec.Command(os.Args[0], "child", dir, strconv.FormatUint(seed, 10), strconv.Itoa(n), hlib.B(big))
 	stdout, _ := cmd.StdoutPipe()
 	cmd.Stderr = nil
@@ -656,6 +733,8 @@ func main() {
 	os.MkdirAll(root, 0o755)
 	defer os.RemoveAll(root)
 	rng := hlib.NewRng(r.Seed)
+	calibrate(root)
+	r.Extra["big_call_duration_ms"] = float64(bigCallDuration.Microseconds()) / 1000
 
 	var jobs []func() caseOut
 	nseq, nops, ncrash := 24, 40, 30
@@ -674,7 +753,10 @@ func main() {
 	for i := 0; i < ncrash; i++ {
 		id, seed := i, rng.U64()
 		n := 8 + rng.Intn(25)
-		big := rng.Chance(20)
+		big := rng.Chance(35)
+		if i%3 == 2 {
+			n, big = 2, true // directed: big Import then big RemoveKeys, killed inside one of them
+		}
 		jobs = append(jobs, func() caseOut { return crashCase(root, id, seed, n, big) })
 	}
 	results := make([]caseOut, len(jobs))
